@@ -559,13 +559,15 @@ def _entity():
 
 def _sp_with(ents):
     key = json.dumps(ents, sort_keys=True)
-    if _state.get("store_key") != key:
+    cache = _state.setdefault("stores", {})
+    if key not in cache:
+        if len(cache) > 16:
+            cache.clear()
         idps = [{"entity_id": e["entity_id"],
                  "idpsso": {"keys": [("signing", "idp_sign")], "sso": [(S.BINDING_REDIRECT, "https://x.c14.example/sso")],
                             "ars": [(S.BINDING_SOAP, loc, idx) for idx, loc in e["eps"]]}} for e in ents]
-        _state["store_sp"] = S.make_sp(S.sp_config(idp_entities=idps))
-        _state["store_key"] = key
-    return _state["store_sp"]
+        cache[key] = S.make_sp(S.sp_config(idp_entities=idps))
+    return cache[key]
 
 
 def _raw_query(url):
